@@ -80,16 +80,12 @@ def main(run):
         for rid in ids:
             n_roots += 1
             seen = G.reach(rid)
-            for x in seen:
-                n = G.nodes[x]
-                if G.is_panic(n):
-                    par = seen[x][0]
-                    caller = G.nodes[par]
-                    if caller['krate'] in ('pct_str', 'utf8_decode', 'iref_core'):
-                        seen_callers.add((caller['def'], n['def']))
+            for (cdef, ckrate, sink) in G.panic_sites(seen):
+                if ckrate in ('pct_str', 'utf8_decode', 'iref_core'):
+                    seen_callers.add((cdef, sink))
     for caller, sink in sorted(seen_callers):
         run.count('panic_sites')
-        lem = DISCHARGE.get(caller)
+        lem = DISCHARGE.get(caller.split('::{closure')[0])
         if lem is None:
             run.violation(f'panic|{caller}|{sink}', f'{caller} can reach {sink} on a comparison/hash path of a percent-decoded component and no lemma discharges it')
     run.cov['comparison_roots_walked'] = n_roots
